@@ -142,7 +142,10 @@ func (b *builder) build(kind string) string {
 		gen := filepath.Join(b.work, "gen-"+kind)
 		cfg := vinstr.DefaultConfig(gen)
 		cfg.StmtPoints = kind == "stmt"
-		cfg.SourceOverride = mut
+		cfg.SourceOverride = map[string]string{}
+		for k, v := range ov { // accessor files and mutant overrides must be visible to the type checker
+			cfg.SourceOverride[k] = v
+		}
 		repl, err := vinstr.Run(cfg)
 		if err != nil {
 			infra("instrumentation failed: %v", err)
